@@ -23,16 +23,54 @@ package types
 //@   ensures valid: err == nil ==> assetsOK(p.AssetParams)
 //@ end
 
-// Field validators called by genesis validation: filters whose result is not relied on (trusted, nothing assumed).
+// Contract validation (genesis): it accepts every contract the handlers can have stored (C12: the chain's own export must
+// re-import) - in particular a plain HTLC WITHOUT timestamp (the timestamp is optional there; rejected on the original
+// code: fixed) - and only cross-chain transfers need a timestamp, a direction and a single coin.
+//@ define htlcAccept(h) = len(h.Id) == 64 && ufb("hex_ok", h.Id) && len(h.HashLock) == 64 && ufb("hex_ok", h.HashLock)
+//@        && bechok(h.Sender) && bechok(h.To) && len(h.ReceiverOnOtherChain) <= 128 && len(h.SenderOnOtherChain) <= 128
+//@        && h.ExpirationHeight != 0 && (h.Transfer ==> h.Timestamp != 0 && len(h.Amount) == 1 && h.Direction >= 1 && h.Direction <= 2)
+//@        && ufb("coins_valid", h.Amount) && (forall d:Str :: amt(h.Amount, d) >= 0) && (exists d:Str :: amt(h.Amount, d) > 0)
+//@        && h.State >= 0 && h.State <= 2 && (h.State == 1 ==> h.ClosedBlock != 0 && len(h.Secret) == 64) && (h.State != 1 ==> len(h.Secret) == 0)
+//@        && (!h.Transfer ==> h.Direction == 0)
 //@ func HTLC.Validate()
 //@   property C04, C12
-//@   trusted
 //@   returns err
+//@   ensures accepts: htlcAccept(h) ==> err == nil
 //@ end
+// the field validators, each exactly its condition
+//@ func ValidateID(id)
+//@   property C12
+//@   returns err
+//@   ensures iff: (err == nil) == (len(id) == 64 && ufb("hex_ok", id))
+//@ end
+//@ func ValidateHashLock(hashLock)
+//@   property C12
+//@   returns err
+//@   ensures iff: (err == nil) == (len(hashLock) == 64 && ufb("hex_ok", hashLock))
+//@ end
+//@ func ValidateReceiverOnOtherChain(receiverOnOtherChain)
+//@   property C12
+//@   returns err
+//@   ensures iff: (err == nil) == (len(receiverOnOtherChain) <= 128)
+//@ end
+//@ func ValidateSenderOnOtherChain(senderOnOtherChain)
+//@   property C12
+//@   returns err
+//@   ensures iff: (err == nil) == (len(senderOnOtherChain) <= 128)
+//@ end
+//@ func ValidateAmount(transfer, amount)
+//@   property C12
+//@   returns err
+//@   ensures accepts: (transfer ==> len(amount) == 1) && ufb("coins_valid", amount) && (forall d:Str :: amt(amount, d) >= 0) && (exists d:Str :: amt(amount, d) > 0) ==> err == nil
+//@ end
+// Supply validation (genesis): four valid coins of one denomination are accepted - whatever the relation between the
+// amounts (claims of outgoing transfers lower the current supply and leave the time-limited amount alone).
+//@ define supCoinOK(c) = ufb("denom_valid", c.Denom) && c.Amount >= 0
 //@ func AssetSupply.Validate()
 //@   property C04, C12
-//@   trusted
 //@   returns err
+//@   ensures accepts: supCoinOK(a.IncomingSupply) && supCoinOK(a.OutgoingSupply) && supCoinOK(a.CurrentSupply) && supCoinOK(a.TimeLimitedCurrentSupply)
+//@                    && a.IncomingSupply.Denom == a.CurrentSupply.Denom && a.OutgoingSupply.Denom == a.CurrentSupply.Denom && a.TimeLimitedCurrentSupply.Denom == a.CurrentSupply.Denom ==> err == nil
 //@ end
 
 // Genesis validation: the ids of the listed contracts are pairwise distinct - wherever in the list they stand (C04, C12:
